@@ -260,10 +260,15 @@ package ext
 // (a retry after ErrNeedMore would otherwise read edited bytes). hdrComplete: the last completeness check of
 // this parse succeeded.
 //@ ghost var hdrComplete bool
+//@ ghost var hcAt int
 //@ func HeadersComplete(buf) r
 //@   props C02, C03
+//@   modifies hcAt
+//@   ghostset before IndexByte: hcAt = off(buf) - off(old(buf))
+//@   top-ensures r ==> 0 <= hcAt && hcAt < len(old(buf)) && (hcAt == 0 || old(buf)[hcAt - 1] == '\n') && (old(buf)[hcAt] == '\n' || (hcAt + 1 < len(old(buf)) && old(buf)[hcAt] == '\r' && old(buf)[hcAt + 1] == '\n'))
 //@   loop 0:
-//@     invariant true
+//@     invariant sameArray(buf, old(buf)) && off(buf) >= off(old(buf)) && off(buf) + len(buf) == off(old(buf)) + len(old(buf))
+//@     invariant off(buf) == off(old(buf)) || old(buf)[off(buf) - off(old(buf)) - 1] == '\n'
 
 //@ func parseTrailer(t, buf) n, err
 //@   props C03, C02
